@@ -94,8 +94,8 @@ struct _table_thumb table_thumb[] =
   { "sxtb",  0xb240, 0xffc0, OP_REG_REG, VERSION_THUMB_2, -1 },
   { "uxth",  0xb280, 0xffc0, OP_REG_REG, VERSION_THUMB_2, -1 },
   { "uxtb",  0xb2c0, 0xffc0, OP_REG_REG, VERSION_THUMB_2, -1 },
-  { "cpsie", 0xb660, 0xffe0, OP_CPS, VERSION_THUMB_2, -1 },
-  { "cpsid", 0xb670, 0xffe0, OP_CPS, VERSION_THUMB_2, -1 },
+  { "cpsie", 0xb660, 0xfff0, OP_CPS, VERSION_THUMB_2, -1 },
+  { "cpsid", 0xb670, 0xfff0, OP_CPS, VERSION_THUMB_2, -1 },
   { "rev",   0xba00, 0xffc0, OP_REG_REG, VERSION_THUMB_2, -1 },
   { "rev16", 0xba40, 0xffc0, OP_REG_REG, VERSION_THUMB_2, -1 },
   { "revsh", 0xbac0, 0xffc0, OP_REG_REG, VERSION_THUMB_2, -1 },
